@@ -1,7 +1,7 @@
 (* C02/Proofs10.v — round 5: stream types with / without a reader, unimplemented_streams, the regenerated stream_vendor and
    list padding arms; the Mac crash info reader; linux_list_iter *)
 From Coq Require Import Lia Bool.
-From RM Require Import C02.Model C02.ModelR5 C02.Proofs1 C02.Proofs2 C02.Proofs3 C02.Proofs7.
+From RM Require Import C02.Model C02.ModelR5 C02.Proofs1 C02.Proofs2 C02.Proofs3 C02.Proofs5 C02.Proofs7.
 Open Scope Z_scope.
 
 (* ------------------------------------------------------------------ stream types *)
@@ -319,4 +319,19 @@ Proof.
     2:{ rewrite forallb_app. cbn [forallb]. apply Z.eqb_neq in Hsep. rewrite Hsep. cbn [negb andb]. rewrite Lk, Lv. reflexivity. }
     cbn [flat_map rev app]. rewrite split_once_app by assumption. cbn [rev app].
     rewrite !strip_quotes_plain by assumption. cbn [app]. f_equal. apply IH. assumption.
+Qed.
+
+(* directory and stream together: the last directory entry of the type points at a stream that starts with the header *)
+Theorem maccrash_served : forall e all v rest stype start alllocs recs l1 size rva l3,
+  wt L_MINIDUMP_MAC_CRASH_INFO v = true ->
+  vflat v = stype :: zlen recs :: start :: unpairs alllocs ->
+  records_at e all start (firstn (length recs) alllocs) recs ->
+  (forall a b, In a recs -> In b recs -> rec_version a = rec_version b) ->
+  slice all rva size = Some (enc e L_MINIDUMP_MAC_CRASH_INFO v ++ rest) ->
+  ~ In ST_MozMacosCrashInfoStream (map fst l3) ->
+  get_stream dec_maccrash e all (l1 ++ (ST_MozMacosCrashInfoStream, (size, rva)) :: l3) ST_MozMacosCrashInfoStream = SOk recs.
+Proof.
+  intros e all v rest stype start alllocs recs l1 size rva l3 Hwt Hv R Same Hs Hnot.
+  unfold get_stream. rewrite last_entry_wins by exact Hnot. rewrite Hs.
+  rewrite (maccrash_any_placement e all v rest stype start alllocs recs Hwt Hv R Same). reflexivity.
 Qed.
